@@ -2,9 +2,11 @@ package vh
 
 import (
 	"bufio"
+	"context"
 	"encoding/json"
 	"math/rand"
 	"os"
+	"sync"
 	"testing"
 	"testing/synctest"
 	"time"
@@ -120,45 +122,79 @@ func init() {
 						steps[j]()
 					}
 				}
-				fcall := 0
-				lastFv := int64(-1)
+				// one or (every third configuration) two overlapping executions through the SAME policy instance, each with its
+				// own trace: what one execution schedules must not depend on the other
+				type xstate struct {
+					lines   []any
+					fcall   int
+					lastFv  int64
+					schedAt time.Time
+					pending bool
+					calls   int
+				}
+				nx := 1
+				if i%3 == 2 {
+					nx = 2
+				}
+				xs := make([]*xstate, nx)
+				for k := range xs {
+					xs[k] = &xstate{lastFv: -1, lines: []any{lines[0]}}
+				}
+				type rdKey struct{}
+				of := func(ctx context.Context) *xstate { return xs[ctx.Value(rdKey{}).(int)] }
 				if fvals != nil {
 					b.WithDelayFunc(func(exec failsafe.ExecutionAttempt[string]) time.Duration {
-						lastFv = fvals[fcall%len(fvals)]
-						fcall++
-						if lastFv == -1 {
+						st := of(exec.Context())
+						st.lastFv = fvals[st.fcall%len(fvals)]
+						st.fcall++
+						if st.lastFv == -1 {
 							return -1
 						}
-						return time.Duration(lastFv) * u
+						return time.Duration(st.lastFv) * u
 					})
 				}
-				var schedAt time.Time
-				pending := false
 				b.OnRetryScheduled(func(e failsafe.ExecutionScheduledEvent[string]) {
+					st := of(e.Context())
 					q, rz := qr(e.Delay, u)
 					if e.Delay < 0 {
 						q, rz = -1-int64(-e.Delay/u), false
 					}
 					el, _ := qr(e.ElapsedTime(), u)
-					lines = append(lines, M{"ev": "Sched", "q": q, "rz": rz, "el": el, "fv": lastFv, "retries": e.Retries(), "at": 0})
-					lastFv = -1
-					schedAt = time.Now()
-					pending = true
+					st.lines = append(st.lines, M{"ev": "Sched", "q": q, "rz": rz, "el": el, "fv": st.lastFv, "retries": e.Retries(), "at": 0})
+					st.lastFv = -1
+					st.schedAt = time.Now()
+					st.pending = true
 				})
-				calls := 0
-				failsafe.Get(func() (string, error) {
-					if pending {
-						gq, grz := qr(time.Since(schedAt), u)
-						lines = append(lines, M{"ev": "Start", "gq": gq, "grz": grz})
-						pending = false
-					}
-					d := durs[calls%len(durs)]
-					calls++
-					if d > 0 {
-						time.Sleep(d)
-					}
-					return "", errE1
-				}, b.Build())
+				pol := b.Build()
+				var wg sync.WaitGroup
+				for k := range xs {
+					wg.Add(1)
+					go func(k int) {
+						defer wg.Done()
+						st := xs[k]
+						if k > 0 {
+							time.Sleep(durs[1]/2 + 3*u/2) // the second execution starts while the first one is under way
+						}
+						failsafe.NewExecutor[string](pol).WithContext(context.WithValue(context.Background(), rdKey{}, k)).Get(func() (string, error) {
+							if st.pending {
+								gq, grz := qr(time.Since(st.schedAt), u)
+								st.lines = append(st.lines, M{"ev": "Start", "gq": gq, "grz": grz})
+								st.pending = false
+							}
+							d := durs[(st.calls+k)%len(durs)]
+							st.calls++
+							if d > 0 {
+								time.Sleep(d)
+							}
+							return "", errE1
+						})
+					}(k)
+				}
+				wg.Wait()
+				lines = nil
+				for _, st := range xs {
+					lines = append(lines, st.lines...)
+				}
 			})
 			for _, l := range lines {
 				enc(l)
